@@ -8,6 +8,7 @@ import (
 	"fmt"
 	"os"
 	"sort"
+	"strings"
 	"time"
 
 	"verif/harness"
@@ -110,10 +111,30 @@ func loadKnown(path string) []Known {
 	return ks
 }
 
+// sigMatch: exact match, or a pattern whose '*' stands for any text.
+func sigMatch(pattern, sig string) bool {
+	if !strings.Contains(pattern, "*") {
+		return pattern == sig
+	}
+	parts := strings.Split(pattern, "*")
+	if !strings.HasPrefix(sig, parts[0]) || !strings.HasSuffix(sig, parts[len(parts)-1]) {
+		return false
+	}
+	rest := sig
+	for _, p := range parts {
+		i := strings.Index(rest, p)
+		if i < 0 {
+			return false
+		}
+		rest = rest[i+len(p):]
+	}
+	return true
+}
+
 func matchKnown(ks []Known, v harness.Verdict) *Known {
 	for i := range ks {
 		k := &ks[i]
-		if k.Status != "known" || k.Sig != v.Sig || k.Sig == "" {
+		if k.Status != "known" || k.Sig == "" || !sigMatch(k.Sig, v.Sig) {
 			continue
 		}
 		if k.Clause == v.Clause {
